@@ -689,6 +689,7 @@ pub fn parts() -> Vec<Box<dyn PartDyn>> {
         enumerate: None,
         shrink_budget: 150,
         confirm_runs: 2,
+            fuzz: None,
     })]
 }
 
@@ -745,6 +746,7 @@ pub fn parts_c01() -> Vec<Box<dyn PartDyn>> {
         enumerate: None,
         shrink_budget: 150,
         confirm_runs: 2,
+            fuzz: None,
     })]
 }
 
@@ -759,5 +761,6 @@ pub fn parts_c09() -> Vec<Box<dyn PartDyn>> {
         enumerate: None,
         shrink_budget: 150,
         confirm_runs: 2,
+            fuzz: None,
     })]
 }
